@@ -5,7 +5,7 @@
 From Coq Require Import String Lia.
 From PS Require Import Base.Bytes Base.Result Model.Converter Model.Command Model.Ctor Model.InitCdb Model.Facade Model.Stack.
 From PS Require Import Proofs.Codec Proofs.Layout Proofs.CtorSound Proofs.CdbSpec Proofs.StackCodec.
-From PS Require Import Spec.CdbFormats Spec.Target Gen.Tables Gen.Opcodes Gen.Ctors Gen.FacadeTbl.
+From PS Require Import Model.Exec Model.Xfer Proofs.XferProps Spec.CdbFormats Spec.Target Gen.Tables Gen.Opcodes Gen.Ctors Gen.FacadeTbl Gen.Misc.
 Set Default Timeout 120.
 Open Scope string_scope.
 Open Scope N_scope.
@@ -386,10 +386,25 @@ Ltac widths :=
 Ltac ranges := apply valid_dict_ranges; [vm_compute; reflexivity | cbn [ranges_ok]; widths; repeat split; (assumption || (vm_compute; reflexivity))].
 
 Lemma wire_read tr b n ats : wire tr (mkCmd (Some b) (CZeros 0) (CZeros n) ats) = Some (b, [], N.to_nat n).
-Proof. unfold wire. cbn [cdb dataout datain cval_bytes]. change (zeros (N.to_nat 0)) with (@nil N). rewrite zeros_length. destruct tr; reflexivity. Qed.
+Proof.
+  unfold wire. cbn [cdb dataout datain cval_bytes]. change (zeros (N.to_nat 0)) with (@nil N). rewrite zeros_length.
+  destruct tr; [now rewrite sgio_args_checked|].
+  rewrite iscsi_xfer_spec. cbn [length]. change (N.of_nat 0 =? 0) with true. cbn [negb]. rewrite N2Nat.id.
+  destruct (N.eqb_spec n 0) as [->|Hn]; cbn [negb]; [reflexivity|].
+  change (String.eqb "SCSI_XFER_READ" "SCSI_XFER_WRITE") with false. change (String.eqb "SCSI_XFER_READ" "SCSI_XFER_READ") with true.
+  cbv iota. now rewrite Nat.min_id.
+Qed.
 
 Lemma wire_write tr b data : wire tr (mkCmd (Some b) (CBytes data) (CZeros 0) []) = Some (b, data, 0%nat).
-Proof. unfold wire. cbn [cdb dataout datain cval_bytes]. change (zeros (N.to_nat 0)) with (@nil N). destruct tr; destruct data; reflexivity. Qed.
+Proof.
+  unfold wire. cbn [cdb dataout datain cval_bytes]. change (zeros (N.to_nat 0)) with (@nil N).
+  destruct tr; [now rewrite sgio_args_checked|].
+  rewrite iscsi_xfer_spec. cbn [length]. change (N.of_nat 0 =? 0) with true. cbn [negb].
+  destruct data as [|x data]; [reflexivity|].
+  assert (H : (N.of_nat (length (x :: data)) =? 0) = false) by (apply N.eqb_neq; cbn [length]; lia).
+  rewrite H. cbn [negb]. change (String.eqb "SCSI_XFER_WRITE" "SCSI_XFER_WRITE") with true. cbv iota.
+  now rewrite Nat2N.id, firstn_all.
+Qed.
 
 Lemma step_read10 tr t lba tl rdprotect dpo fua rarc group :
   target_ok t -> lba < 2 ^ 32 -> tl < 2 ^ 16 -> rdprotect < 2 ^ 3 -> dpo < 2 ^ 1 -> fua < 2 ^ 1 -> rarc < 2 ^ 1 -> group < 2 ^ 5 -> lba + tl <= t_nblk t ->
